@@ -286,7 +286,7 @@ static void c10_carquet_output(const uint8_t* x, size_t n) {
 }
 
 /* Stream builder: bytes + expected output + positions of offset fields */
-typedef struct { ref_buf s, o; size_t offpos[8]; int offlen[8]; int noff; size_t elem_start[10]; int nelem; } sb_t;
+typedef struct { ref_buf s, o; size_t offpos[8]; size_t offprod[8]; int offlen[8]; int noff; size_t elem_start[10]; int nelem; } sb_t;
 static void sb_reset(sb_t* b) { ref_buf_clear(&b->s); ref_buf_clear(&b->o); b->noff = 0; b->nelem = 0; }
 static uint8_t litbyte(size_t k) { return (uint8_t)(0x30 + (k * 7 + (k >> 8)) % 75); }
 static void out_lit(sb_t* b, size_t len) { for (size_t i = 0; i < len; i++) ref_buf_u8(&b->o, litbyte(b->o.n)); }
@@ -311,15 +311,15 @@ static bool sn_emit(sb_t* b, const sel_t* e) {
     if (e->kind == 1) {
         if (e->len < 4 || e->len > 11 || e->off > 2047) return false;
         ref_buf_u8(&b->s, (uint8_t)(((e->off >> 8) << 5) | ((e->len - 4) << 2) | 1));
-        b->offpos[b->noff] = b->s.n; b->offlen[b->noff++] = 1; ref_buf_u8(&b->s, (uint8_t)e->off);
+        b->offpos[b->noff] = b->s.n; b->offprod[b->noff] = b->o.n; b->offlen[b->noff++] = 1; ref_buf_u8(&b->s, (uint8_t)e->off);
     } else if (e->kind == 2) {
         if (e->len < 1 || e->len > 64 || e->off > 65535) return false;
         ref_buf_u8(&b->s, (uint8_t)(((e->len - 1) << 2) | 2));
-        b->offpos[b->noff] = b->s.n; b->offlen[b->noff++] = 2; ref_buf_u8(&b->s, (uint8_t)e->off); ref_buf_u8(&b->s, (uint8_t)(e->off >> 8));
+        b->offpos[b->noff] = b->s.n; b->offprod[b->noff] = b->o.n; b->offlen[b->noff++] = 2; ref_buf_u8(&b->s, (uint8_t)e->off); ref_buf_u8(&b->s, (uint8_t)(e->off >> 8));
     } else {
         if (e->len < 1 || e->len > 64) return false;
         ref_buf_u8(&b->s, (uint8_t)(((e->len - 1) << 2) | 3));
-        b->offpos[b->noff] = b->s.n; b->offlen[b->noff++] = 4; ref_buf_u32le(&b->s, e->off);
+        b->offpos[b->noff] = b->s.n; b->offprod[b->noff] = b->o.n; b->offlen[b->noff++] = 4; ref_buf_u32le(&b->s, e->off);
     }
     out_copy(b, e->off, e->len);
     return true;
@@ -433,6 +433,14 @@ static void snappy_case(sb_t* b, const sel_t* const* els, int ne) {
         if (b->offlen[k] == 1) m.p[p - 1] |= 0xe0;
         if (b->offlen[k] < 4) { if ((b->offlen[k] == 1 ? 2047u : 65535u) > b->o.n) feed_snappy(m.p, m.n, NULL, b->o.n, "offset-beyond-output"); }
         else feed_snappy(m.p, m.n, NULL, b->o.n, "offset-beyond-output");
+        {   /* the first offset that is too large: one more than the bytes produced so far */
+            size_t o1 = b->offprod[k] + 1; bool fits = true;
+            m.p[p - 1] = tagsave;
+            if (b->offlen[k] == 1) { if (o1 > 2047) fits = false; else { m.p[p - 1] = (uint8_t)((tagsave & 0x1f) | ((o1 >> 8) << 5)); m.p[p] = (uint8_t)o1; } }
+            else if (b->offlen[k] == 2) { if (o1 > 65535) fits = false; else { m.p[p] = (uint8_t)o1; m.p[p + 1] = (uint8_t)(o1 >> 8); } }
+            else { m.p[p] = (uint8_t)o1; m.p[p + 1] = (uint8_t)(o1 >> 8); m.p[p + 2] = (uint8_t)(o1 >> 16); m.p[p + 3] = (uint8_t)(o1 >> 24); }
+            if (fits) feed_snappy(m.p, m.n, NULL, b->o.n, "offset-produced-plus-one");
+        }
     }
     /* (4) truncation at every byte of the stream (long literal payloads: only around element boundaries) */
     for (size_t cut = 0; cut < full.n; cut++) {
@@ -457,7 +465,7 @@ static bool lz_emit(sb_t* b, const lseq_t* q, bool last) {
     size_t st = b->o.n; out_lit(b, q->lit); ref_buf_put(&b->s, b->o.p + st, q->lit);
     if (last) return true;
     if (q->off == 0 || q->off > b->o.n) return false;
-    b->offpos[b->noff] = b->s.n; b->offlen[b->noff++] = 2;
+    b->offpos[b->noff] = b->s.n; b->offprod[b->noff] = b->o.n; b->offlen[b->noff++] = 2;
     ref_buf_u8(&b->s, (uint8_t)q->off); ref_buf_u8(&b->s, (uint8_t)(q->off >> 8));
     if (q->ml >= 15) lz_len(&b->s, q->ml);
     out_copy(b, q->off, q->ml + 4);
@@ -478,6 +486,9 @@ static void lz4_case(sb_t* b, const lseq_t* seqs, int ns, uint32_t final_lit) {
         feed_lz4(m.p, m.n, NULL, b->o.n, "zero-offset", false);
         m.p[b->offpos[k]] = 0xff; m.p[b->offpos[k] + 1] = 0xff;
         feed_lz4(m.p, m.n, NULL, b->o.n, "offset-beyond-output", false);
+        /* the first offset that is too large: one more than the bytes produced so far */
+        size_t o1 = b->offprod[k] + 1;
+        if (o1 <= 0xffff) { m.p[b->offpos[k]] = (uint8_t)o1; m.p[b->offpos[k] + 1] = (uint8_t)(o1 >> 8); feed_lz4(m.p, m.n, NULL, b->o.n, "offset-produced-plus-one", false); }
     }
     for (size_t cut = 0; cut < b->s.n; cut++) {
         bool near = false;
